@@ -431,6 +431,25 @@ def run_case_here(case, outpath, scratch):
     ctx = multiprocessing.get_context(case.get("start", "fork"))
     sh = Shared(ctx, os.path.join(scratch, "events.log"))
     pw = _worker_classes()
+    pw.WORKER_OPTS.clear()
+    pw.WORKER_OPTS.update(case.get("worker_opts") or {})
+    held_fds = []
+    if case.get("many_fds"):
+        # the caller holds more than 1024 descriptors (FD_SETSIZE): everything opened from now on has a high number
+        import resource
+        soft, hard = resource.getrlimit(resource.RLIMIT_NOFILE)
+        want = case["many_fds"] + 400
+        if soft < want <= hard or hard == resource.RLIM_INFINITY:
+            resource.setrlimit(resource.RLIMIT_NOFILE, (want, hard))
+        try:
+            held_fds = [os.open("/dev/null", os.O_RDONLY) for _ in range(case["many_fds"])]
+        except OSError:
+            pass
+    if case.get("broken_stderr"):
+        # stderr is a pipe whose reader is gone (a supervisor that died): writing to it raises BrokenPipeError
+        r_, w_ = os.pipe()
+        os.close(r_)
+        sys.stderr = os.fdopen(w_, "w")
     start_method = case.get("start", "fork")
     plan_items = [[[r, q, rel, o], [k, a]] for r, q, rel, o, k, a in case.get("plan", [])]
     tier = case.get("tier", "quick")
@@ -510,14 +529,14 @@ def run_case_here(case, outpath, scratch):
                                           pw.HFactory(sh, quota, faults, case.get("end_delay", 0), case.get("begin_delay", 0),
                                                       start_method, plan_items, case.get("slow_create", 0)),
                                           context=ctx, work_queue_maxsize=wq, results_queue_maxsize=rq,
-                                          join_timeout=case.get("join_timeout"))
+                                          join_timeout=case.get("join_timeout"), **({"verbose": True} if case.get("verbose") else {}))
         else:
             wcls = pw.WORKER_CLASS[start_method]
             workers = [wcls(sh, 0 if (case.get("zero_quota_worker") and i == 0) else (case.get("functor_quota") or math.inf),
                             faults.get(i), i, case.get("end_delay", 0),
                             case.get("begin_delay", 0) if i % 2 == 0 else 0, plan_items) for i in range(case["workers"])]
             pool = opp.FunctorPool(workers, context=ctx, work_queue_maxsize=wq, results_queue_maxsize=rq,
-                                   join_timeout=case.get("join_timeout"))
+                                   join_timeout=case.get("join_timeout"), **({"verbose": True} if case.get("verbose") else {}))
         state["pool"] = pool
         state["phase"] = "pool_enter"
         sh.log("pool_enter")
@@ -545,16 +564,34 @@ def run_case_here(case, outpath, scratch):
                         sh.log("ready_during_return", wids=[getattr(p, "wid", None) for p in snap])
                         time.sleep(0.01)
                 threading.Thread(target=poll_ready, name="vf:ready", daemon=True).start()
+            pre_gens = None
+            if case.get("create_all_first"):
+                # the caller builds all its result generators first and consumes them one after the other
+                pre_gens = [(pool.imap if c_["ordered"] else pool.imap_unordered)(make_input(c_, k_, sh), c_["chunk"])
+                            for k_, c_ in enumerate(case["calls"])]
             for ci, call in enumerate(case["calls"]):
                 state["phase"] = "call"
                 state["call"] = ci
                 rec = {"yields": [], "completed": False, "exception": None}
                 state["calls"].append(rec)
-                data = make_input(call, ci, sh)
+                got_one = threading.Semaphore(0)
+                data = make_input(call, ci, sh) if pre_gens is None else None
+                if call.get("request_response") and pre_gens is None:
+                    # a request/response stream: item i+1 exists only after the result of item i was received (chunk size 1)
+                    items_ = list(data)
+
+                    def rr_stream(items_=items_):
+                        for k_, x_ in enumerate(items_):
+                            if k_:
+                                got_one.acquire()
+                            yield x_
+                    data = rr_stream()
                 sh.log("call_start", call=ci)
                 try:
-                    gen = (pool.imap if call["ordered"] else pool.imap_unordered)(data, call["chunk"])
+                    gen = pre_gens[ci] if pre_gens is not None else \
+                        (pool.imap if call["ordered"] else pool.imap_unordered)(data, call["chunk"])
                     for y in gen:
+                        got_one.release()
                         rec["yields"].append(_compact(y, call))
                     rec["completed"] = True
                 except instr.InjectedFault:
